@@ -313,8 +313,22 @@ def check_output_gates(rep, repo):
                         tainted.add(name)
     # statements that print a statistic label from the matching also count (calls with a tainted argument are already in)
     rep.count('sensitive_statements', len(sens))
-    if len(sens) < 5:
-        rep.inconclusive(rule, f.where, 'the statements that emit matching output are identified', got='%d found' % len(sens))
+    # instance floor: the statistics, the matching line and the listings read the LP state in at least 5 places (one
+    # statement may hold several of them, e.g. a literal list of lines)
+    reads = 0
+    for n in sens:
+        parts = [n.ast] if n.kind != 'loop' else [n.ast.iter if isinstance(n.ast, ast.For) else n.ast.test]
+        for p_ in parts:
+            for x in ast.walk(p_):
+                if isinstance(x, ast.Call) and isinstance(x.func, ast.Attribute) and isinstance(x.func.value, ast.Name) and x.func.value.id == 'self' and x.func.attr in readers:
+                    reads += 1
+                elif isinstance(x, ast.Attribute) and x.attr == 'varValue':
+                    reads += 1
+                elif isinstance(x, ast.Name) and isinstance(x.ctx, ast.Load) and x.id in tainted:
+                    reads += 1
+    rep.count('sensitive_reads', reads)
+    if reads < 5:
+        rep.inconclusive(rule, f.where, 'the statements that emit matching output are identified', got='%d statements with %d reads of the LP state found' % (len(sens), reads))
         return
     rep.check(bool(opt_edges), rule, f.where, "get_results tests pulp_status against the Optimal constant", got=[show(conds.get(t.line)) for t in tests][:6],
               want='if not pulp_status == OPTIMAL: return', construct='optimal gate absent')
